@@ -114,6 +114,10 @@ CHECKS = {
                 jobs=lambda t: J("allocexplore", "asan-hsw", []) + J("allocexplore", "prod-hsw", []),
                 budget=dict(quick=120, thorough=2400),
                 rule="explicit-state BFS over operation histories of the real pool allocator (8 configurations: simple/adaptive policy, tracking base, own base, user buffers of several sizes/alignments); every transition executed on the implementation and checked: 8-byte alignment, containment in one chunk, pairwise disjointness, contents intact, Realloc prefix and in-place growth, zero size -> null, Size()/Capacity() accounting, copies share one pool, chunks returned exactly once and only when the last copy dies, user buffer never freed or overrun."),
+    "C12": dict(level="model_checking", engine="domexplore",
+                jobs=lambda t: J("domexplore", "prod-hsw", []) + J("domexplore", "asan-hsw", []),
+                budget=dict(quick=150, thorough=3000),
+                rule="explicit-state BFS over mutation-API histories of a real document (pool allocator and ledger-tracking freeing allocator) against a plain-container model (vector of values / vector of pairs, RemoveMember moving the last member into the hole); after every transition Dump() equals the model serialisation, every accessor agrees, toggling the lookup map on objects with distinct keys changes nothing, the serialised text round-trips; every transition is executed on the implementation by replaying the history on fresh objects."),
 }
 
 
